@@ -144,6 +144,25 @@ func (e *Exec) serveAs(p *world.Party) {
 	e.W.OwnerKeys.Set(p)
 }
 
+// delFail makes the first DELETE on the vouchers table fail (once) until the returned function runs.
+func delFail(s *world.Store) func() {
+	db := s.DB.DB()
+	for _, q := range []string{
+		`CREATE TABLE IF NOT EXISTS verif_cnt (n INTEGER)`,
+		`DELETE FROM verif_cnt`,
+		`INSERT INTO verif_cnt VALUES (0)`,
+		`CREATE TRIGGER verif_delfail BEFORE DELETE ON vouchers WHEN (SELECT n FROM verif_cnt) = 0 BEGIN UPDATE verif_cnt SET n = 1; SELECT RAISE(FAIL, 'verif: delete refused'); END`,
+	} {
+		if _, err := db.Exec(q); err != nil {
+			panic("harness: cannot install the delete fault: " + err.Error())
+		}
+	}
+	return func() {
+		_, _ = db.Exec(`DROP TRIGGER IF EXISTS verif_delfail`)
+		_, _ = db.Exec(`DROP TABLE IF EXISTS verif_cnt`)
+	}
+}
+
 // storeFail makes the vouchers table of the store refuse inserts until the returned function runs.
 func storeFail(s *world.Store) func() {
 	_, err := s.DB.DB().Exec(`CREATE TRIGGER verif_storefail BEFORE INSERT ON vouchers BEGIN SELECT RAISE(FAIL, 'verif: storage full'); END`)
@@ -173,7 +192,7 @@ func (e *Exec) owner(i int) *world.Party {
 
 // cutHook cuts the first exchange whose request has type c.T.
 func cutHook(c Cut) *world.Hook {
-	if c.Kind == "" || c.Kind == "none" || c.Kind == "storefail" {
+	if c.Kind == "" || c.Kind == "none" || c.Kind == "storefail" || c.Kind == "delfail" {
 		return nil // a storage fault is injected in the database, not on the wire
 	}
 	var done int32
@@ -247,6 +266,9 @@ func (e *Exec) Do(a Action) Event {
 		case "to2":
 			if a.Cut.Kind == "storefail" {
 				defer storeFail(e.W.OwnerStore)()
+			}
+			if a.Cut.Kind == "delfail" {
+				defer delFail(e.W.OwnerStore)()
 			}
 			e.W.Opt.Reuse = a.Reuse
 			before := e.Dev.Cred
